@@ -8,6 +8,7 @@ from props import common as K
 
 META = {
     "level": "other",
+    "technique": "static analysis of type-checked MIR (rustc_private driver): compiler-computed layout sizes vs header constants; byte-order pairing; read-result discipline and loop-exit rule on coroutine MIR",
     "explanation": "Layout rule: for every fixed-layout PDU struct the header its constructor writes carries the type's PDU "
                    "constant and the compiler-computed size of the struct (variable PDUs: fixed size + payload length); byte "
                    "order pairing of every multi-byte field between constructor and accessors; on the pre-transform MIR of "
